@@ -1208,6 +1208,12 @@ class NetRun:
         self.new_callbacks()
         self.health()
         after = W.projection(world.gateway.sensors)
+        early = getattr(world, "after_start_persistence", None)
+        if self.persist and early is not None and early != after and not load_fault:
+            # the documented start-up order is start_persistence() then start(): whatever is restored must be there when the
+            # first of the two returns, not some time later
+            self.add(vio("restart-lost-state", {"diff": _diff(early, after), "format": self.persist, "when": "when start_persistence() returned"},
+                         format=self.persist, when="at-start_persistence-return"))
         kind = "tcp" if self.flavour in ("tcp", "atcp") else ("mqtt" if self.broker else "plain")
         old = self.model
         self.model = GatewayModel(self.version, kind, metric=True)
